@@ -131,13 +131,14 @@ def rule_encoders(ctx: Ctx) -> None:
     qt = _query_transport(ctx, mk, call)
     bt = _body_transport(mk, call)
     ctx.sample({"rule": "C16.1", "channel": "binance", "signed": {k: v[0] for k, v in enc.items()}, "sent_query": qt[::2], "sent_body": bt[::2]})
-    ctx.check(qt[0].split("(")[0] == enc["qs_params"][0].split("(")[0] and qt[1] == q_var, "C16.1",
+    from .. import norm as N
+    ctx.check(qt[0].split("(")[0] == enc["qs_params"][0].split("(")[0] and q_var is not None and qt[1] in N.aliases(mk, q_var), "C16.1",
               "binance query string: encoder that signs == encoder that sends, same variable", mk, call,
               f"signed with {enc['qs_params'][0]}({q_var}), sent as {qt[2]}",
               f"the query string is signed with {enc['qs_params'][0]}({q_var}) but sent as {qt[2]} [{qt[0]}]: the two encoders "
               "disagree on URL-special characters (':' '/' '@' ',' ...), so e.g. origClientOrderId='a:b/c' is signed as "
               "'a%3Ab%2Fc' and transmitted as 'a:b/c' and the exchange rejects the signature", key_text="binance query encoders")
-    ctx.check(bt[0] == enc["data"][0].split("(")[0] and bt[1] == d_var, "C16.1",
+    ctx.check(bt[0] == enc["data"][0].split("(")[0] and d_var is not None and bt[1] in N.aliases(mk, d_var), "C16.1",
               "binance body: encoder that signs == encoder that sends, same variable", mk, call,
               f"signed with {enc['data'][0]}({d_var}), sent as {bt[2]}",
               f"the body is signed with {enc['data'][0]}({d_var}) but sent as {bt[2]} [{bt[0]}]", key_text="binance body encoders")
